@@ -1,0 +1,48 @@
+// Copyright (c) HashiCorp, Inc.
+// SPDX-License-Identifier: MPL-2.0
+
+//go:build verif
+
+package sourcebundle
+
+import "sync"
+
+// SimMutexHooks lets a deterministic simulator observe and order every
+// acquisition and release of a Builder's mutex. Only compiled with the
+// "verif" build tag; with the tag on and SimMutexHook nil, builderMutex
+// behaves exactly like sync.Mutex.
+type SimMutexHooks struct {
+	// BeforeLock runs before the real Lock. A simulator parks the calling
+	// task here until its model of the mutex is free, so that the real Lock
+	// never contends.
+	BeforeLock func(m interface{})
+	// AfterLock runs right after the real Lock returned.
+	AfterLock func(m interface{})
+	// AfterUnlock runs right after the real Unlock returned.
+	AfterUnlock func(m interface{})
+}
+
+// SimMutexHook is nil unless a simulator installs hooks.
+var SimMutexHook *SimMutexHooks
+
+type builderMutex struct {
+	mu sync.Mutex
+}
+
+func (m *builderMutex) Lock() {
+	h := SimMutexHook
+	if h != nil && h.BeforeLock != nil {
+		h.BeforeLock(m)
+	}
+	m.mu.Lock()
+	if h != nil && h.AfterLock != nil {
+		h.AfterLock(m)
+	}
+}
+
+func (m *builderMutex) Unlock() {
+	m.mu.Unlock()
+	if h := SimMutexHook; h != nil && h.AfterUnlock != nil {
+		h.AfterUnlock(m)
+	}
+}
